@@ -1,6 +1,7 @@
 package main
 
 import (
+	"path/filepath"
 	"bytes"
 	"crypto/sha1"
 	"errors"
@@ -38,6 +39,11 @@ type c19Src struct {
 	// former finding, all fixed upstream; the keys are regression detectors): inside the /Length validation of ReadStreamData (ROB-2),
 	// inside FileInfo.getTrailer (ROB-3), a short read below scanner.PeekN (ROB-1)
 	hitExtent, hitTrailer, hitPeekShort bool
+
+	// innermost frame of a sub-package of the library (not package pdf itself) on the stack of
+	// the first injected fault since it was last cleared: the consumer whose read failed
+	// (rob_c19w.go clears it at every step and keys violations by it)
+	hitSite string
 }
 
 func (f *c19Src) noteHit() {
@@ -46,9 +52,29 @@ func (f *c19Src) noteHit() {
 	n := runtime.Callers(2, pcs)
 	frames := runtime.CallersFrames(pcs[:n])
 	var inStreamData, inGetInt, inPeek bool
+	root := ""
 	for {
 		fr, more := frames.Next()
 		fn := fr.Function
+		// (by file, not by function name: the body of a range-over-func iterator that was
+		// inlined into the harness carries the harness's package in its name)
+		if root == "" && strings.HasPrefix(fn, "seehuhn.de/go/pdf.") {
+			root = filepath.Dir(fr.File)
+		}
+		if f.hitSite == "" && root != "" && strings.HasPrefix(fr.File, root+"/") && filepath.Dir(fr.File) != root {
+			rel, _ := filepath.Rel(root, filepath.Dir(fr.File))
+			parts := strings.Split(fn[strings.LastIndex(fn, "/")+1:], ".")
+			name := ""
+			for i := len(parts) - 1; i > 0; i-- {
+				p := parts[i]
+				if p == "" || (strings.HasPrefix(p, "func") && len(p) > 4) || (p[0] >= '0' && p[0] <= '9') || strings.HasPrefix(p, "]") {
+					continue
+				}
+				name = p
+				break
+			}
+			f.hitSite = filepath.ToSlash(rel) + "." + name
+		}
 		switch {
 		case strings.HasSuffix(fn, "pdf.endstreamAt"), strings.HasSuffix(fn, "pdf.trimTrailingEOL"):
 			f.hitExtent = true
@@ -124,6 +150,7 @@ type c19Result struct {
 	err  error
 	data []byte // decoded bytes of a "decode" step
 	raw  int64  // extent of the raw stream data (steps on streams), else -1
+	site string // rob_c19w.go: consumer below which the first fault of this step struck
 }
 
 func c19ShowObj(o pdf.Object) string {
